@@ -189,7 +189,9 @@ def discharge(obligations, timeout_s=20, jobs=None, seed=0, keep_smt2=3, cvc5_al
     for attempt, (ds, mult) in enumerate(((101, 2), (7919, 3))):
         slow = [i for i, r in enumerate(results) if r["result"] == "unknown" and obligations[i].view != "custom"
                 and any(w in str(r.get("reason", "")) for w in ("timeout", "canceled", "hard timeout", "resource"))]
-        if not slow:
+        if not slow or len(slow) > 12:
+            # many timeouts are systematic (a changed tree whose queries are genuinely hard), not seed luck: no retry,
+            # so that a check on such a tree still ends in reasonable time
             break
         with ctx.Pool(min(jobs, len(slow))) as pool:
             asyncs = [(i, pool.apply_async(_solve, ((i, int(timeout_s * 1000 * mult), seed + ds),))) for i in slow]
